@@ -263,7 +263,7 @@ def mvalidate(tspec, constants, mfile, work, parallel=8, timeout=3600):
     files, total = split_records(mfile, work, parallel, "mrec_" + os.path.basename(mfile).replace(".ndjson", ""))
     if total == 0:
         return 0, []
-    cfg = "CONSTANTS\n" + "".join(" %s = %s\n" % kv for kv in constants.items()) + PCFG
+    cfg = ("CONSTANTS\n" + "".join(" %s = %s\n" % kv for kv in constants.items()) if constants else "") + PCFG
 
     def one(fc):
         fn, cnt = fc
